@@ -389,41 +389,51 @@ func runFrames(in FInput) (ob SObs, crash string) {
 	v.StartKnockDetector(ctx)
 	injectSem <- struct{}{}
 	t0 := time.Now()
+	var gw gapWatch
+	finished := watchdog(120*time.Second, func() { crash = injectFrames(in, v, &gw) })
+	marker := rec.scanLen()
+	<-injectSem
+	ob.BurstMs = time.Since(t0).Milliseconds()
+	if !finished {
+		return ob, "a handler blocked for 120 s"
+	}
+	if crash != "" {
+		return ob, crash
+	}
+	if gw.stalled() {
+		return ob, slowBurst
+	}
+	ob.Ticks, crash = collect(rec, marker, in.Ticks, "")
+	return ob, crash
+}
+
+func injectFrames(in FInput, v *canary.VerifCanary, gw *gapWatch) (crash string) {
+	me := goid()
 	for i, fr := range in.Frames {
-		done := make(chan string, 1)
-		fr := []byte(fr)
-		go func() {
+		gw.step()
+		func() {
 			defer func() {
 				if r := recover(); r != nil {
-					done <- fmt.Sprintf("handler panic on frame %d: %v", i, r)
+					crash = fmt.Sprintf("handler panic on frame %d: %v", i, r)
 				}
 			}()
-			v.Inject(fr)
-			done <- ""
+			v.Inject([]byte(fr))
 		}()
-		select {
-		case c := <-done:
-			if c != "" {
-				crash = c
-			}
-		case <-time.After(3 * time.Second):
-			crash = fmt.Sprintf("handler blocked for 3 s on frame %d", i)
-		}
 		if crash != "" {
 			break
 		}
 	}
-	time.Sleep(150 * time.Millisecond) // the UDP handler goroutines queue their knocks
-	tEnd := time.Now()
-	<-injectSem
-	ob.BurstMs = tEnd.Sub(t0).Milliseconds()
-	if crash != "" {
-		return ob, crash
+	// the UDP handler goroutines (created by this goroutine inside handleUDP) queue their knocks
+	deadline := time.Now().Add(20 * time.Second)
+	for crash == "" && liveHandlers(me) > 0 {
+		gw.step()
+		if time.Now().After(deadline) {
+			crash = "udp handler goroutines still running after 20 s"
+		}
+		time.Sleep(25 * time.Millisecond)
 	}
-	if ob.BurstMs > 1800 {
-		return ob, slowBurst
-	}
-	return collect(SInput{Ticks: in.Ticks}, rec, tEnd, ob)
+	gw.step()
+	return crash
 }
 
 func runFramesRetry(in FInput) (ob SObs, crash string) {
